@@ -198,6 +198,9 @@ func propC02(c *Ctx) {
 	c.Assumptions = append(c.Assumptions, "A1", "A2", "A3", "A5", "A10")
 	fn := hostHandler(c, "FinalizeTokenWithdrawal")
 
+	// claim records must survive a genesis export: the exported per-bridge claim lists never share memory
+	defer exportFreshness(c, "C02.R6", "ophost")
+
 	c.Rule("C02.R1", func() {
 		o := c.Ob("C02.R1", "FinalizeTokenWithdrawal: payout guarded by not-claimed and recorded on the same key")
 		o2 := c.Ob("C02.R2", "FinalizeTokenWithdrawal: claim key is output-independent and covers all six leaf fields")
